@@ -198,7 +198,7 @@ func runSpec(docText []byte, cont bool, in *interner, reg strfmt.Registry, reuse
 	phaseMu.Lock()
 	phaseLog = nil
 	phaseMu.Unlock()
-	st, pv := guarded(60*time.Second, func() {
+	st, pv := guarded(240*time.Second, func() {
 		d, err := loads.Analyzed(json.RawMessage(docText), "")
 		if err != nil {
 			res.out = "loaderr"
@@ -368,8 +368,11 @@ func driveSpec(args []string) error {
 	// one P and no automatic collection: what a validation leaves in the sync.Pools (for instance after a panic that the
 	// library recovered itself) is what the next validation of the run borrows; memory is reclaimed every few documents
 	runtime.GOMAXPROCS(1)
-	debug.SetGCPercent(-1)
-	debug.SetMemoryLimit(1500 << 20) // ... and whenever the heap approaches 1.5 GB (repeated validations of large documents)
+	// rare collections (the heap may grow fivefold between two of them): a sync.Pool keeps its content over one collection,
+	// so what a validation leaves behind is still there for the next ones. (No collection at all, bounded by a memory limit,
+	// made the collector thrash on the large fixture documents of the thorough tier: validations then took minutes and were
+	// taken for hangs - a false alarm of the machinery, corrected.)
+	debug.SetGCPercent(400)
 	crashedHow := map[string]string{}
 	for _, c := range strings.Split(*crashed, ",") {
 		if parts := strings.Split(c, ":"); len(parts) == 3 {
@@ -465,9 +468,6 @@ func driveSpec(args []string) error {
 	runs, loaded := 0, 0
 	outcomes := map[string]int{}
 	for di, d := range docs {
-		if di%24 == 23 {
-			runtime.GC()
-		}
 		if sn > 1 && di%sn != sk {
 			continue
 		}
